@@ -9,7 +9,7 @@ builder and strict parser)."""
 import hashlib
 import json
 
-from vlib import runner, sut, std, encutil
+from vlib import runner, sut, std, encutil, fuzz
 from vlib.compare import first_value_diff
 from vlib.runner import Outcome, Report, Reject
 from gen import messages as gmsg, streams as gstreams
@@ -316,6 +316,17 @@ def cells():
     return out
 
 
+# ---- coverage-guided stage: the same generator and oracle, decisions taken from fuzzer bytes (vlib.fuzz) ----
+_FUZZ_OPTS = gstreams.small_opts('quick', max_ids=8)
+
+
+def _fuzz_gen(ch):
+    return gen_frame(ch, _FUZZ_OPTS)
+
+
+fuzz_case = fuzz.structured_target(_fuzz_gen, check_frame)
+
+
 def run(tier, seed):
     rep = Report(PID, tier, seed, 'exploration')
     rep.rule = ('enumerated encoder cells: edition {2,3,4} x section 2 {absent, 0, 1, 2, 5 octets} x data section of 1..48 bits (odd '
@@ -349,6 +360,7 @@ def run(tier, seed):
     rep.required_classes = ['surplus_in_section_1', 'surplus_in_section_2', 'surplus_in_section_3', 'surplus_in_section_4',
                             'trailing_bytes', 'shortened_section_1', 'shortened_section_2', 'shortened_section_3',
                             'shortened_section_4', 'section4_cut_unaligned', 'section4_cut_aligned'] + ['residue_%d' % r for r in range(16)]
+    fuzz.run_structured(rep, 'checks.c04', _fuzz_gen, tier)
     return rep.finish()
 
 
